@@ -188,7 +188,8 @@ func (w *_nodeRepr) LookupByIndex(idx int64) (datamodel.Node, error) {
 		return w.asKinded(stg, datamodel.Kind_List).LookupByIndex(idx)
 	case schema.StructRepresentation_Tuple:
 		fields := w.schemaType.(*schema.TypeStruct).Fields()
-		if idx < 0 || int(idx) >= len(fields) {
+		// Trailing absent fields are not part of the list: Length and the iterator stop before them, so does lookup.
+		if idx < 0 || int(idx) >= len(fields) || idx >= w.lengthMinusTrailingAbsents() {
 			return nil, datamodel.ErrNotExists{Segment: datamodel.PathSegmentOfInt(idx)}
 		}
 		field := fields[idx]
